@@ -1,904 +1,69 @@
 package main
 
 import (
-	"fmt"
-	"os"
-	"go/types"
-	"math/big"
-	"regexp"
 	"strings"
 
 	"golang.org/x/tools/go/ssa"
 )
 
-var globalInit = map[string]func(ex *Exec) Value{
-	"github.com/tellor-io/layer/types.PowerReduction": func(ex *Exec) Value { return VInt{IntC(1000000)} },
-	"github.com/tellor-io/layer/types.OnePercent":     func(ex *Exec) Value { return VInt{IntC(10000)} },
-	"github.com/tellor-io/layer/types.BondDenom":      func(ex *Exec) Value { return concStr("loya") },
-}
-
-var identRe = regexp.MustCompile(`[^A-Za-z0-9_.]`)
-
-func symName(v Value) string {
-	s := v.(VStr)
-	if s.Conc == nil {
-		panic(unsupported{"nd name must be a constant string"})
-	}
-	return "nd_" + identRe.ReplaceAllString(*s.Conc, "_")
-}
-
-func (ex *Exec) ndInt(name string, lo, hi *big.Int) Term {
-	ex.declare(name, "Int")
-	ex.ndNames = append(ex.ndNames, name)
-	t := IntVar(name)
-	if lo != nil {
-		ex.assume(Ge(t, IntB(lo)))
-	}
-	if hi != nil {
-		ex.assume(Le(t, IntB(hi)))
-	}
-	return t
-}
-
-func (ex *Exec) mkErr(msg string, wrapped *ErrVal) Value {
-	ex.objSeq++
-	e := &ErrVal{ID: fmt.Sprintf("err#%d", ex.objSeq), Msg: msg, Wrapped: wrapped}
-	return VIface{Typ: errMarkerType, V: VOpaque{Kind: "error", Data: e}}
-}
-
-func errOf(v Value) *ErrVal {
-	i := v.(VIface)
-	if i.Typ == nil {
-		return nil
-	}
-	return i.V.(VOpaque).Data.(*ErrVal)
-}
-
-func nilErr() Value { return VIface{} }
-
-type itemState struct {
-	present Term
-	val     Value
-}
-
 var extraIntrinsics []func(map[string]intrinsic)
 
-func intrinsics() map[string]intrinsic {
+func intrinsicTable() map[string]intrinsic {
 	m := map[string]intrinsic{}
-	defer func() {
-		for _, f := range extraIntrinsics {
-			f(m)
-		}
-	}()
-	two63 := new(big.Int).Lsh(big.NewInt(1), 63)
-	two64 := new(big.Int).Lsh(big.NewInt(1), 64)
-	// ---- nd
-	m["nd:ndUint64"] = func(ex *Exec, fr *frame, cc *ssa.CallCommon, a []Value) Value {
-		return VInt{ex.ndInt(symName(a[0]), big.NewInt(0), new(big.Int).Sub(two64, big.NewInt(1)))}
-	}
-	m["nd:ndInt64"] = func(ex *Exec, fr *frame, cc *ssa.CallCommon, a []Value) Value {
-		return VInt{ex.ndInt(symName(a[0]), new(big.Int).Neg(two63), new(big.Int).Sub(two63, big.NewInt(1)))}
-	}
-	m["nd:ndBigInt"] = func(ex *Exec, fr *frame, cc *ssa.CallCommon, a []Value) Value {
-		return VInt{ex.ndInt(symName(a[0]), nil, nil)}
-	}
-	m["nd:ndBool"] = func(ex *Exec, fr *frame, cc *ssa.CallCommon, a []Value) Value {
-		n := symName(a[0])
-		ex.declare(n, "Bool")
-		ex.ndNames = append(ex.ndNames, n)
-		return VBool{BoolVar(n)}
-	}
-	m["nd:ndAtom"] = func(ex *Exec, fr *frame, cc *ssa.CallCommon, a []Value) Value {
-		t := ex.ndInt(symName(a[0]), big.NewInt(0), nil)
-		return VStr{Atom: &t}
-	}
-	m["nd:ndLen"] = func(ex *Exec, fr *frame, cc *ssa.CallCommon, a []Value) Value {
-		mx := int(a[1].(VInt).T.I.Int64())
-		return VInt{IntC(int64(ex.chooseFree(mx + 1)))}
-	}
-	m["nd:ndPick"] = m["nd:ndLen"]
-	m["nd:ndAssume"] = func(ex *Exec, fr *frame, cc *ssa.CallCommon, a []Value) Value {
-		c := a[0].(VBool).T
-		if c.Const {
-			if !c.B {
-				panic(pathEnd{"assume false"})
-			}
-			return nil
-		}
-		if ex.query(c, false) == "unsat" {
-			panic(pathEnd{"assume false"})
-		}
-		ex.assume(c)
-		return nil
-	}
-	m["nd:ndAssert"] = func(ex *Exec, fr *frame, cc *ssa.CallCommon, a []Value) Value {
-		c := a[0].(VBool).T
-		label := *a[1].(VStr).Conc
-		if c.Const && c.B {
-			ex.Discharged[label]++
-			return nil
-		}
-		r := ex.query(Not(c), false)
-		if r == "sat" {
-			r = ex.queryAll(Not(c))
-		}
-		if r == "sat" {
-			model := ex.solver.GetValues(ex.ndNames)
-			ex.Violations = append(ex.Violations, Violation{label, model})
-		} else if r == "unsat" {
-			ex.Discharged[label]++
-		} else {
-			ex.Discharged[label+"?unknown"]++
-		}
-		if c.Const && !c.B {
-			panic(pathEnd{"assert failed"})
-		}
-		return nil // asserted conditions are NOT added to the path condition
-	}
-	m["nd:ndReach"] = func(ex *Exec, fr *frame, cc *ssa.CallCommon, a []Value) Value {
-		ex.Reached[*a[0].(VStr).Conc]++
-		return nil
-	}
-	m["nd:ndItem"] = func(ex *Exec, fr *frame, cc *ssa.CallCommon, a []Value) Value {
-		return VOpaque{Kind: "item", Data: &itemState{present: a[0].(VBool).T, val: a[1]}}
-	}
-	// ---- sort
-	sortFn := func(ex *Exec, fr *frame, cc *ssa.CallCommon, a []Value) Value {
-		s := a[0].(VIface).V.(VSlice)
-		less := a[1].(VClos)
-		callLess := func(i, j int) bool {
-			r := ex.callFn(fr, cc, less.Fn, []Value{VInt{IntC(int64(i))}, VInt{IntC(int64(j))}}, less.Bind)
-			return ex.decide(r.(VBool).T)
-		}
-		for i := 1; i < s.Len; i++ {
-			for j := i; j > 0 && callLess(j, j-1); j-- {
-				arr := s.O.V.(VArr)
-				e := make([]Value, len(arr.E))
-				copy(e, arr.E)
-				e[s.Off+j], e[s.Off+j-1] = e[s.Off+j-1], e[s.Off+j]
-				s.O.V = VArr{e}
-			}
-		}
-		return nil
-	}
-	m["sort.Slice"] = sortFn
-	m["sort.SliceStable"] = sortFn
-	// ---- errors
-	m["errors.New"] = func(ex *Exec, fr *frame, cc *ssa.CallCommon, a []Value) Value {
-		return ex.mkErr(ex.describe(a[0]), nil)
-	}
-	m["errors.Is"] = func(ex *Exec, fr *frame, cc *ssa.CallCommon, a []Value) Value {
-		e, t := errOf(a[0]), errOf(a[1])
-		for ; e != nil; e = e.Wrapped {
-			if t != nil && e.ID == t.ID {
-				return VBool{BoolC(true)}
-			}
-		}
-		return VBool{BoolC(e == nil && t == nil)}
-	}
-	// ---- cosmossdk.io/math.Int
-	mi := "(cosmossdk.io/math.Int)."
-	bin := func(f func(a, b Term) Term) intrinsic {
-		return func(ex *Exec, fr *frame, cc *ssa.CallCommon, a []Value) Value {
-			return VInt{f(a[0].(VInt).T, a[1].(VInt).T)}
-		}
-	}
-	cmpI := func(f func(a, b Term) Term) intrinsic {
-		return func(ex *Exec, fr *frame, cc *ssa.CallCommon, a []Value) Value {
-			return VBool{f(a[0].(VInt).T, a[1].(VInt).T)}
-		}
-	}
-	m[mi+"Add"] = bin(Add)
-	m[mi+"Sub"] = bin(Sub)
-	m[mi+"Mul"] = bin(Mul)
-	m[mi+"LT"] = cmpI(Lt)
-	m[mi+"LTE"] = cmpI(Le)
-	m[mi+"GT"] = cmpI(Gt)
-	m[mi+"GTE"] = cmpI(Ge)
-	m[mi+"Equal"] = cmpI(Eq)
-	m[mi+"Neg"] = func(ex *Exec, fr *frame, cc *ssa.CallCommon, a []Value) Value { return VInt{Neg(a[0].(VInt).T)} }
-	m[mi+"IsNegative"] = func(ex *Exec, fr *frame, cc *ssa.CallCommon, a []Value) Value {
-		return VBool{Lt(a[0].(VInt).T, IntC(0))}
-	}
-	m[mi+"IsZero"] = func(ex *Exec, fr *frame, cc *ssa.CallCommon, a []Value) Value {
-		return VBool{Eq(a[0].(VInt).T, IntC(0))}
-	}
-	m[mi+"IsPositive"] = func(ex *Exec, fr *frame, cc *ssa.CallCommon, a []Value) Value {
-		return VBool{Gt(a[0].(VInt).T, IntC(0))}
-	}
-	quo := func(ex *Exec, fr *frame, cc *ssa.CallCommon, a []Value) Value {
-		d := a[1].(VInt).T
-		if !ex.decide(Not(Eq(d, IntC(0)))) {
-			panic(goPanic{"division by zero"})
-		}
-		return VInt{TDiv(a[0].(VInt).T, d)}
-	}
-	m[mi+"Quo"] = quo
-	m[mi+"QuoRaw"] = quo
-	m[mi+"MulRaw"] = bin(Mul)
-	m["cosmossdk.io/math.NewInt"] = func(ex *Exec, fr *frame, cc *ssa.CallCommon, a []Value) Value { return a[0] }
-	m["cosmossdk.io/math.NewIntFromUint64"] = m["cosmossdk.io/math.NewInt"]
-	m["cosmossdk.io/math.ZeroInt"] = func(ex *Exec, fr *frame, cc *ssa.CallCommon, a []Value) Value { return VInt{IntC(0)} }
-	// ---- collections.Item
-	m["(cosmossdk.io/collections.Item[V]).Get"] = func(ex *Exec, fr *frame, cc *ssa.CallCommon, a []Value) Value {
-		it := a[0].(VOpaque).Data.(*itemState)
-		if ex.decide(it.present) {
-			return VTuple{it.val, nilErr()}
-		}
-		sig := cc.Signature()
-		notFound := VIface{Typ: errMarkerType, V: VOpaque{Kind: "error", Data: ex.sentinel("cosmossdk.io/collections.ErrNotFound")}}
-		return VTuple{ex.zero(sig.Results().At(0).Type()), notFound}
+	for _, f := range extraIntrinsics {
+		f(m)
 	}
 	return m
 }
 
-var _ = strings.HasPrefix
-var _ types.Type
-
-func init() {
-	extraIntrinsics = append(extraIntrinsics, func(m map[string]intrinsic) {
-		m["context.Background"] = func(ex *Exec, fr *frame, cc *ssa.CallCommon, a []Value) Value {
-			return VIface{Typ: errMarkerType, V: VOpaque{Kind: "ctx"}}
-		}
-	})
+// allowPrefixes: functions of other modules that are executed from their own SSA (small, pure helpers).
+var allowPrefixes = []string{
+	"(github.com/cosmos/cosmos-sdk/types.Coin).",
+	"(github.com/cosmos/cosmos-sdk/types.Coins).",
+	"(github.com/cosmos/cosmos-sdk/types.DecCoin).",
+	"(*github.com/cosmos/cosmos-sdk/x/staking/types.UnbondingDelegation).RemoveEntry",
+	"(github.com/cosmos/cosmos-sdk/x/staking/types.Validator).",
+	"(github.com/cosmos/cosmos-sdk/x/staking/types.Delegation).",
+	"(*github.com/cosmos/cosmos-sdk/x/staking/types.Delegation).",
+	"(github.com/cosmos/cosmos-sdk/x/staking/types.BondStatus).",
+	"github.com/cosmos/cosmos-sdk/x/staking/types.NewDelegation",
+	"(*github.com/cosmos/cosmos-sdk/x/staking/types.Msg",
+	"(*github.com/cosmos/cosmos-sdk/x/bank/types.Msg",
+	"(github.com/cosmos/cosmos-sdk/types.AccAddress).Empty",
+	"(*github.com/cometbft/cometbft/abci/types.",
+	"(github.com/cometbft/cometbft/abci/types.",
+	"(*github.com/cometbft/cometbft/proto/tendermint/types.",
+	"slices.",
+	"sort.Sort",
+	"sort.Stable",
+	"sort.insertionSort",
+	"sort.stable",
+	"sort.symMerge",
+	"sort.swapRange",
+	"sort.rotate",
+	"sort.Strings",
+	"(sort.StringSlice).",
+	"bytes.Repeat",
+	"strings.Repeat",
 }
 
-// ---------------------------------------------------------------- LegacyDec, collections (tier 1), bytes
-
-var prec = new(big.Int).Exp(big.NewInt(10), big.NewInt(18), nil)
-
-// divModPos defines fresh q,r with a = q*m + r, 0 <= r < m for a CONSTANT positive m (linear).
-func (ex *Exec) divModPos(a Term, m *big.Int) (Term, Term) {
-	if a.Const {
-		q, r := new(big.Int).DivMod(a.I, m, new(big.Int))
-		return IntB(q), IntB(r)
+func allowExternal(key string) bool {
+	for _, p := range allowPrefixes {
+		if strings.HasPrefix(key, p) {
+			return true
+		}
 	}
-	q, r := ex.aux("q"), ex.aux("r")
-	ex.assume(And(Eq(a, Add(Mul(q, IntB(m)), r)), And(Ge(r, IntC(0)), Lt(r, IntB(m)))))
-	return q, r
+	return false
 }
 
-// name gives a compound term a fresh name so that it is not duplicated textually.
-func (ex *Exec) name(t Term) Term {
-	if t.Const || len(t.S) < 24 {
-		return t
+// globalByName reads package-level variable pkg.name (running the package initialiser leniently if needed).
+func (ex *Exec) globalByName(pkgPath, name string) Value {
+	for _, p := range ex.prog.AllPackages() {
+		if p.Pkg.Path() == pkgPath {
+			if g, ok := p.Members[name].(*ssa.Global); ok {
+				return ex.global(g).V
+			}
+		}
 	}
-	v := ex.aux("t")
-	ex.assume(Eq(v, t))
-	return v
-}
-
-// chopRoundX: half-even rounding of d / 10^18 using auxiliary quotient/remainder constants.
-func (ex *Exec) chopRoundX(d Term) Term {
-	d = ex.name(d)
-	a := ex.name(Abs(d))
-	q, r := ex.divModPos(a, prec)
-	half := IntB(new(big.Int).Quo(prec, big.NewInt(2)))
-	_, odd := ex.divModPos(q, big.NewInt(2))
-	up := Or(Gt(r, half), And(Eq(r, half), Eq(odd, IntC(1))))
-	res := ex.name(Ite(up, Add(q, IntC(1)), q))
-	return ex.name(Ite(Lt(d, IntC(0)), Neg(res), res))
-}
-
-// truncDivX: truncated a / b for symbolic b != 0 using auxiliary constants: |a| = q*|b| + r.
-func (ex *Exec) truncDivX(a, b Term) Term {
-	if a.Const && b.Const {
-		return TDiv(a, b)
-	}
-	a, b = ex.name(a), ex.name(b)
-	absA, absB := ex.name(Abs(a)), ex.name(Abs(b))
-	q, r := ex.aux("q"), ex.aux("r")
-	ex.assume(And(Eq(absA, Add(Mul(q, absB), r)), And(Ge(r, IntC(0)), Lt(r, absB))))
-	ex.assume(Ge(q, IntC(0)))
-	same := Or(And(Ge(a, IntC(0)), Gt(b, IntC(0))), And(Lt(a, IntC(0)), Lt(b, IntC(0))))
-	return ex.name(Ite(same, q, Neg(q)))
-}
-
-func chopRound(d Term) Term { // half-even rounding of d / 10^18 (sign-symmetric)
-	P := IntB(prec)
-	half := IntB(new(big.Int).Quo(prec, big.NewInt(2)))
-	a := Abs(d)
-	q := EDiv(a, P)
-	r := EMod(a, P)
-	up := Or(Gt(r, half), And(Eq(r, half), Eq(EMod(q, IntC(2)), IntC(1))))
-	res := Ite(up, Add(q, IntC(1)), q)
-	return Ite(Lt(d, IntC(0)), Neg(res), res)
-}
-
-type collEntry struct {
-	key, val Value
-}
-type collMap struct {
-	name    string
-	entries []collEntry
-}
-
-func (ex *Exec) collKeyEq(a, b Value) Term {
-	switch x := a.(type) {
-	case VOpaque:
-		if x.Kind == "pair" {
-			pa, pb := x.Data.([2]Value), b.(VOpaque).Data.([2]Value)
-			return And(ex.collKeyEq(pa[0], pb[0]), ex.collKeyEq(pa[1], pb[1]))
-		}
-	case VInt:
-		return Eq(x.T, b.(VInt).T)
-	case VStr:
-		return ex.strEq(x, b.(VStr))
-	}
-	panic(unsupported{fmt.Sprintf("collection key %T", a)})
-}
-
-func init() {
-	extraIntrinsics = append(extraIntrinsics, func(m map[string]intrinsic) {
-		ld := "(cosmossdk.io/math.LegacyDec)."
-		P := IntB(prec)
-		bin := func(f func(a, b Term) Term) intrinsic {
-			return func(ex *Exec, fr *frame, cc *ssa.CallCommon, a []Value) Value {
-				return VInt{f(a[0].(VInt).T, a[1].(VInt).T)}
-			}
-		}
-		m[ld+"Add"] = bin(Add)
-		m[ld+"Sub"] = bin(Sub)
-		havoc := os.Getenv("HAVOC") != ""
-		// abstract mode: result is a fresh value constrained only by sign (sound over-approximation)
-		abstract := func(ex *Exec, x, y Term) Term {
-			r := ex.aux("h")
-			nonneg := Or(And(Ge(x, IntC(0)), Ge(y, IntC(0))), And(Le(x, IntC(0)), Le(y, IntC(0))))
-			ex.assume(Ite(nonneg, Ge(r, IntC(0)), Le(r, IntC(0))))
-			ex.assume(Or(Not(Eq(x, IntC(0))), Eq(r, IntC(0))))
-			return r
-		}
-		m[ld+"Mul"] = func(ex *Exec, fr *frame, cc *ssa.CallCommon, a []Value) Value {
-			if havoc && !a[0].(VInt).T.Const && !a[1].(VInt).T.Const {
-				return VInt{abstract(ex, a[0].(VInt).T, a[1].(VInt).T)}
-			}
-			return VInt{ex.chopRoundX(Mul(a[0].(VInt).T, a[1].(VInt).T))}
-		}
-		m[ld+"Quo"] = func(ex *Exec, fr *frame, cc *ssa.CallCommon, a []Value) Value {
-			d := a[1].(VInt).T
-			if !ex.decide(Not(Eq(d, IntC(0)))) {
-				panic(goPanic{"LegacyDec division by zero"})
-			}
-			if havoc && !d.Const {
-				return VInt{abstract(ex, a[0].(VInt).T, d)}
-			}
-			return VInt{ex.chopRoundX(ex.truncDivX(Mul(a[0].(VInt).T, Mul(P, P)), d))}
-		}
-		m[ld+"TruncateInt"] = func(ex *Exec, fr *frame, cc *ssa.CallCommon, a []Value) Value {
-			return VInt{TDiv(a[0].(VInt).T, P)}
-		}
-		m[ld+"IsNegative"] = func(ex *Exec, fr *frame, cc *ssa.CallCommon, a []Value) Value {
-			return VBool{Lt(a[0].(VInt).T, IntC(0))}
-		}
-		m[ld+"GTE"] = func(ex *Exec, fr *frame, cc *ssa.CallCommon, a []Value) Value {
-			return VBool{Ge(a[0].(VInt).T, a[1].(VInt).T)}
-		}
-		m[ld+"LTE"] = func(ex *Exec, fr *frame, cc *ssa.CallCommon, a []Value) Value {
-			return VBool{Le(a[0].(VInt).T, a[1].(VInt).T)}
-		}
-		m["(cosmossdk.io/math.Int).ToLegacyDec"] = func(ex *Exec, fr *frame, cc *ssa.CallCommon, a []Value) Value {
-			return VInt{Mul(a[0].(VInt).T, P)}
-		}
-		m["cosmossdk.io/math.LegacyNewDec"] = m["(cosmossdk.io/math.Int).ToLegacyDec"]
-		m["cosmossdk.io/math.LegacyNewDecFromInt"] = m["(cosmossdk.io/math.Int).ToLegacyDec"]
-		m["cosmossdk.io/math.LegacyZeroDec"] = func(ex *Exec, fr *frame, cc *ssa.CallCommon, a []Value) Value { return VInt{IntC(0)} }
-		m["nd:ndDecRaw"] = m["nd:ndBigInt"]
-		m["nd:ndBytes"] = m["nd:ndAtom"]
-		// collections
-		m["nd:ndMap"] = func(ex *Exec, fr *frame, cc *ssa.CallCommon, a []Value) Value {
-			return VOpaque{Kind: "map", Data: &collMap{name: *a[0].(VStr).Conc}}
-		}
-		m["nd:ndIMap"] = m["nd:ndMap"]
-		get := func(ex *Exec, fr *frame, cc *ssa.CallCommon, a []Value) Value {
-			cm := a[0].(VOpaque).Data.(*collMap)
-			for _, e := range cm.entries {
-				if ex.decide(ex.collKeyEq(e.key, a[2])) {
-					return VTuple{e.val, nilErr()}
-				}
-			}
-			nf := VIface{Typ: errMarkerType, V: VOpaque{Kind: "error", Data: ex.sentinel("cosmossdk.io/collections.ErrNotFound")}}
-			return VTuple{ex.zero(cc.Signature().Results().At(0).Type()), nf}
-		}
-		set := func(ex *Exec, fr *frame, cc *ssa.CallCommon, a []Value) Value {
-			cm := a[0].(VOpaque).Data.(*collMap)
-			for i, e := range cm.entries {
-				if ex.decide(ex.collKeyEq(e.key, a[2])) {
-					cm.entries[i].val = a[3]
-					return nilErr()
-				}
-			}
-			cm.entries = append(cm.entries, collEntry{a[2], a[3]})
-			return nilErr()
-		}
-		for _, recv := range []string{"(cosmossdk.io/collections.Map[K, V])", "(*cosmossdk.io/collections.IndexedMap[PrimaryKey, Value, Idx])"} {
-			m[recv+".Get"] = get
-			m[recv+".Set"] = set
-		}
-		m["cosmossdk.io/collections.Join"] = func(ex *Exec, fr *frame, cc *ssa.CallCommon, a []Value) Value {
-			return VOpaque{Kind: "pair", Data: [2]Value{a[0], a[1]}}
-		}
-		m["(github.com/cosmos/cosmos-sdk/types.AccAddress).Bytes"] = func(ex *Exec, fr *frame, cc *ssa.CallCommon, a []Value) Value { return a[0] }
-		m["bytes.Equal"] = func(ex *Exec, fr *frame, cc *ssa.CallCommon, a []Value) Value {
-			return VBool{ex.strEq(a[0].(VStr), a[1].(VStr))}
-		}
-	})
-}
-
-func init() {
-	extraIntrinsics = append(extraIntrinsics, func(m map[string]intrinsic) {
-		m["nd:ndUlp"] = func(ex *Exec, fr *frame, cc *ssa.CallCommon, a []Value) Value { return a[0] }
-		m["(cosmossdk.io/math.LegacyDec).QuoInt64"] = func(ex *Exec, fr *frame, cc *ssa.CallCommon, a []Value) Value { return a[0] }
-	})
-}
-
-func init() {
-	extraIntrinsics = append(extraIntrinsics, func(m map[string]intrinsic) {
-		m["github.com/cosmos/cosmos-sdk/types.NewCoin"] = func(ex *Exec, fr *frame, cc *ssa.CallCommon, a []Value) Value {
-			if ex.decide(Lt(a[1].(VInt).T, IntC(0))) {
-				panic(goPanic{"negative coin amount"})
-			}
-			return VStruct{[]Value{a[0], a[1]}}
-		}
-		m["github.com/cosmos/cosmos-sdk/types.NewCoins"] = func(ex *Exec, fr *frame, cc *ssa.CallCommon, a []Value) Value {
-			return a[0] // single-denom model: keep the list as given
-		}
-		m["(github.com/cosmos/cosmos-sdk/types.Coins).AmountOf"] = func(ex *Exec, fr *frame, cc *ssa.CallCommon, a []Value) Value {
-			s := a[0].(VSlice)
-			sum := IntC(0)
-			for i := 0; i < s.Len; i++ {
-				c := s.O.V.(VArr).E[s.Off+i].(VStruct)
-				sum = Add(sum, Ite(ex.strEq(c.F[0].(VStr), a[1].(VStr)), c.F[1].(VInt).T, IntC(0)))
-			}
-			return VInt{sum}
-		}
-	})
-	allowList["(*github.com/cosmos/cosmos-sdk/x/staking/types.UnbondingDelegation).RemoveEntry"] = true
-}
-
-var allowList = map[string]bool{}
-
-func isHexDigit(b Term) Term {
-	in := func(lo, hi int64) Term { return And(Ge(b, IntC(lo)), Le(b, IntC(hi))) }
-	return Or(in('0', '9'), Or(in('a', 'f'), in('A', 'F')))
-}
-
-func init() {
-	extraIntrinsics = append(extraIntrinsics, func(m map[string]intrinsic) {
-		m["nd:ndStr"] = func(ex *Exec, fr *frame, cc *ssa.CallCommon, a []Value) Value {
-			n := int(a[1].(VInt).T.I.Int64())
-			bs := make([]Term, n)
-			for i := range bs {
-				bs[i] = ex.ndInt(fmt.Sprintf("%s_%d", symName(a[0]), i), big.NewInt(0), big.NewInt(255))
-			}
-			if n == 0 {
-				bs = []Term{}
-			}
-			return VStr{Bytes: bs}
-		}
-		m["encoding/hex.DecodeString"] = func(ex *Exec, fr *frame, cc *ssa.CallCommon, a []Value) Value {
-			s := a[0].(VStr)
-			if s.Bytes == nil {
-				panic(unsupported{"hex.DecodeString on non byte-level string"})
-			}
-			ok := BoolC(len(s.Bytes)%2 == 0)
-			for _, b := range s.Bytes {
-				ok = And(ok, isHexDigit(b))
-			}
-			if ex.decide(ok) {
-				e := make([]Value, len(s.Bytes)/2)
-				for i := range e {
-					e[i] = VInt{ex.aux("hexbyte")}
-				}
-				return VTuple{VSlice{O: ex.newObj(VArr{e}), Len: len(e), Cap: len(e)}, nilErr()}
-			}
-			return VTuple{VSlice{}, ex.mkErr("encoding/hex: invalid", nil)}
-		}
-		m["(*math/big.Int).SetString"] = func(ex *Exec, fr *frame, cc *ssa.CallCommon, a []Value) Value {
-			s := a[1].(VStr)
-			if s.Bytes == nil {
-				panic(unsupported{"SetString on non byte-level string"})
-			}
-			base := a[2].(VInt).T
-			if !base.Const || base.I.Int64() != 16 {
-				panic(unsupported{"SetString base != 16"})
-			}
-			// ^[+-]?[0-9a-fA-F]+$
-			n := len(s.Bytes)
-			digits := func(from int) Term {
-				if from >= n {
-					return BoolC(false)
-				}
-				ok := BoolC(true)
-				for _, b := range s.Bytes[from:] {
-					ok = And(ok, isHexDigit(b))
-				}
-				return ok
-			}
-			ok := digits(0)
-			if n >= 1 {
-				sign := Or(Eq(s.Bytes[0], IntC('+')), Eq(s.Bytes[0], IntC('-')))
-				ok = Or(ok, And(sign, digits(1)))
-			}
-			if ex.decide(ok) {
-				return VTuple{a[0], VBool{BoolC(true)}}
-			}
-			return VTuple{VPtr{}, VBool{BoolC(false)}}
-		}
-	})
-}
-
-func (ex *Exec) hexval(atom Term) Term {
-	if !ex.declared["hexval"] {
-		ex.declared["hexval"] = true
-		declText["hexval"] = "(declare-fun hexval (Int) Int)(declare-fun hexok (Int) Bool)"
-	}
-	return Term{S: "(hexval " + atom.S + ")", V: unionV(atom, Term{V: []int{varID("hexval")}})}
-}
-func (ex *Exec) hexok(atom Term) Term {
-	ex.hexval(atom)
-	return Term{S: "(hexok " + atom.S + ")", Bool: true, V: unionV(atom, Term{V: []int{varID("hexval")}})}
-}
-
-func init() {
-	extraIntrinsics = append(extraIntrinsics, func(m map[string]intrinsic) {
-		atomOf := func(ex *Exec, v Value) Term {
-			s := v.(VStr)
-			if s.Atom != nil {
-				return *s.Atom
-			}
-			if s.Conc != nil {
-				return ex.atomOfConst(*s.Conc)
-			}
-			panic(unsupported{"atom expected"})
-		}
-		m["nd:ndHexOK"] = func(ex *Exec, fr *frame, cc *ssa.CallCommon, a []Value) Value {
-			return VBool{ex.hexok(atomOf(ex, a[0]))}
-		}
-		m["nd:ndHexLess"] = func(ex *Exec, fr *frame, cc *ssa.CallCommon, a []Value) Value {
-			return VBool{Lt(ex.hexval(atomOf(ex, a[0])), ex.hexval(atomOf(ex, a[1])))}
-		}
-		prev := m["(*math/big.Int).SetString"]
-		m["(*math/big.Int).SetString"] = func(ex *Exec, fr *frame, cc *ssa.CallCommon, a []Value) Value {
-			s := a[1].(VStr)
-			if s.Atom == nil {
-				return prev(ex, fr, cc, a)
-			}
-			if ex.decide(ex.hexok(*s.Atom)) {
-				return VTuple{VOpaque{Kind: "bigptr", Data: ex.hexval(*s.Atom)}, VBool{BoolC(true)}}
-			}
-			return VTuple{VPtr{}, VBool{BoolC(false)}}
-		}
-		P := IntB(prec)
-		m["cosmossdk.io/math.LegacyNewDecFromBigInt"] = func(ex *Exec, fr *frame, cc *ssa.CallCommon, a []Value) Value {
-			return VInt{Mul(a[0].(VOpaque).Data.(Term), P)}
-		}
-		m["(cosmossdk.io/math.LegacyDec).BigInt"] = func(ex *Exec, fr *frame, cc *ssa.CallCommon, a []Value) Value {
-			return VOpaque{Kind: "bigptr", Data: a[0].(VInt).T}
-		}
-		m["(*math/big.Int).Cmp"] = func(ex *Exec, fr *frame, cc *ssa.CallCommon, a []Value) Value {
-			x, y := a[0].(VOpaque).Data.(Term), a[1].(VOpaque).Data.(Term)
-			return VInt{Ite(Lt(x, y), IntC(-1), Ite(Gt(x, y), IntC(1), IntC(0)))}
-		}
-		m["(cosmossdk.io/math.LegacyDec).TruncateInt64"] = func(ex *Exec, fr *frame, cc *ssa.CallCommon, a []Value) Value {
-			q := ex.truncDivX(a[0].(VInt).T, P)
-			lim := new(big.Int).Lsh(big.NewInt(1), 63)
-			if ex.decide(Or(Ge(q, IntB(lim)), Lt(q, IntB(new(big.Int).Neg(lim))))) {
-				panic(goPanic{"Int64() out of bound"})
-			}
-			return VInt{q}
-		}
-	})
-}
-
-type multiIdx struct {
-	parent *collMap
-	name   string
-}
-
-func init() {
-	prevZero := isTimeType
-	_ = prevZero
-	extraIntrinsics = append(extraIntrinsics, func(m map[string]intrinsic) {
-		m["nd:ndTime"] = func(ex *Exec, fr *frame, cc *ssa.CallCommon, a []Value) Value {
-			return VInt{ex.ndInt(symName(a[0]), big.NewInt(0), new(big.Int).Lsh(big.NewInt(1), 62))}
-		}
-		m["nd:ndCtx"] = func(ex *Exec, fr *frame, cc *ssa.CallCommon, a []Value) Value {
-			return VIface{Typ: errMarkerType, V: VOpaque{Kind: "sdkctx", Data: a[0]}}
-		}
-		m["github.com/cosmos/cosmos-sdk/types.UnwrapSDKContext"] = func(ex *Exec, fr *frame, cc *ssa.CallCommon, a []Value) Value {
-			return a[0].(VIface).V
-		}
-		m["(github.com/cosmos/cosmos-sdk/types.Context).BlockTime"] = func(ex *Exec, fr *frame, cc *ssa.CallCommon, a []Value) Value {
-			return a[0].(VOpaque).Data.(Value)
-		}
-		m["(time.Time).Before"] = func(ex *Exec, fr *frame, cc *ssa.CallCommon, a []Value) Value {
-			return VBool{Lt(a[0].(VInt).T, a[1].(VInt).T)}
-		}
-		m["(time.Time).After"] = func(ex *Exec, fr *frame, cc *ssa.CallCommon, a []Value) Value {
-			return VBool{Gt(a[0].(VInt).T, a[1].(VInt).T)}
-		}
-		m["cosmossdk.io/math.OneInt"] = func(ex *Exec, fr *frame, cc *ssa.CallCommon, a []Value) Value { return VInt{IntC(1)} }
-		m["(cosmossdk.io/errors.Error).Error"] = func(ex *Exec, fr *frame, cc *ssa.CallCommon, a []Value) Value { return concStr("registered-error") }
-		m["(*cosmossdk.io/errors.Error).Error"] = m["(cosmossdk.io/errors.Error).Error"]
-		// IndexedMap as a real struct {Indexes, m}
-		m["nd:ndIMap"] = func(ex *Exec, fr *frame, cc *ssa.CallCommon, a []Value) Value {
-			cm := &collMap{name: *a[0].(VStr).Conc}
-			pt := cc.Signature().Results().At(0).Type().(*types.Pointer).Elem()
-			st := pt.Underlying().(*types.Struct)
-			idxT := st.Field(0).Type()
-			idxS := idxT.Underlying().(*types.Struct)
-			f := make([]Value, idxS.NumFields())
-			for i := range f {
-				f[i] = VPtr{O: ex.newObj(VOpaque{Kind: "multi", Data: &multiIdx{cm, idxS.Field(i).Name()}})}
-			}
-			return VPtr{O: ex.newObj(VStruct{[]Value{VStruct{f}, VOpaque{Kind: "map", Data: cm}}})}
-		}
-		unwrap := func(v Value) Value { // receiver: Map value or *IndexedMap
-			if p, ok := v.(VPtr); ok {
-				return p.load().(VStruct).F[1]
-			}
-			return v
-		}
-		get, set := m["(cosmossdk.io/collections.Map[K, V]).Get"], m["(cosmossdk.io/collections.Map[K, V]).Set"]
-		wrap := func(f intrinsic) intrinsic {
-			return func(ex *Exec, fr *frame, cc *ssa.CallCommon, a []Value) Value {
-				b := append([]Value{unwrap(a[0])}, a[1:]...)
-				return f(ex, fr, cc, b)
-			}
-		}
-		has := func(ex *Exec, fr *frame, cc *ssa.CallCommon, a []Value) Value {
-			cm := a[0].(VOpaque).Data.(*collMap)
-			for _, e := range cm.entries {
-				if ex.decide(ex.collKeyEq(e.key, a[2])) {
-					return VTuple{VBool{BoolC(true)}, nilErr()}
-				}
-			}
-			return VTuple{VBool{BoolC(false)}, nilErr()}
-		}
-		im := "(*cosmossdk.io/collections.IndexedMap[PrimaryKey, Value, Idx])"
-		m[im+".Get"], m[im+".Set"], m[im+".Has"] = wrap(get), wrap(set), wrap(has)
-		m["(cosmossdk.io/collections.Map[K, V]).Has"] = has
-		m["(*cosmossdk.io/collections/indexes.Multi[ReferenceKey, PrimaryKey, Value]).MatchExact"] = func(ex *Exec, fr *frame, cc *ssa.CallCommon, a []Value) Value {
-			mi := a[0].(VPtr).load().(VOpaque).Data.(*multiIdx)
-			var hits []collEntry
-			for _, e := range mi.parent.entries {
-				var ref Value
-				switch mi.name {
-				case "VotersById":
-					ref = e.key.(VOpaque).Data.([2]Value)[0]
-				default:
-					panic(unsupported{"index " + mi.name})
-				}
-				if ex.decide(ex.collKeyEq(ref, a[2])) {
-					hits = append(hits, e)
-				}
-			}
-			return VTuple{VOpaque{Kind: "multiiter", Data: hits}, nilErr()}
-		}
-		m["cosmossdk.io/collections/indexes.CollectKeyValues"] = func(ex *Exec, fr *frame, cc *ssa.CallCommon, a []Value) Value {
-			hits := a[2].(VOpaque).Data.([]collEntry)
-			e := make([]Value, len(hits))
-			for i, h := range hits {
-				e[i] = VStruct{[]Value{h.key, h.val}}
-			}
-			if len(e) == 0 {
-				return VTuple{VSlice{}, nilErr()}
-			}
-			return VTuple{VSlice{O: ex.newObj(VArr{e}), Len: len(e), Cap: len(e)}, nilErr()}
-		}
-	})
-}
-
-func isTimeType(t types.Type) bool { return namedPath(t) == "time.Time" }
-
-type rangeSpec struct {
-	prefix     Value
-	startExcl  *Term
-	endExcl    *Term
-	endIncl    *Term
-	descending bool
-}
-
-func init() {
-	extraIntrinsics = append(extraIntrinsics, func(m map[string]intrinsic) {
-		// time modelled in milliseconds in this spike
-		m["time.UnixMilli"] = func(ex *Exec, fr *frame, cc *ssa.CallCommon, a []Value) Value { return a[0] }
-		m["(time.Time).UnixMilli"] = func(ex *Exec, fr *frame, cc *ssa.CallCommon, a []Value) Value { return a[0] }
-		m["encoding/hex.EncodeToString"] = func(ex *Exec, fr *frame, cc *ssa.CallCommon, a []Value) Value { return concStr("<hex>") }
-		m["fmt.Errorf"] = func(ex *Exec, fr *frame, cc *ssa.CallCommon, a []Value) Value { return ex.mkErr(ex.describe(a[0]), nil) }
-		m["cosmossdk.io/collections.NewPrefixedPairRange"] = func(ex *Exec, fr *frame, cc *ssa.CallCommon, a []Value) Value {
-			return VPtr{O: ex.newObj(VOpaque{Kind: "pairrange", Data: &rangeSpec{prefix: a[0]}})}
-		}
-		pr := "(*cosmossdk.io/collections.PairRange[K1, K2])."
-		rs := func(v Value) *rangeSpec { return v.(VPtr).load().(VOpaque).Data.(*rangeSpec) }
-		m[pr+"EndExclusive"] = func(ex *Exec, fr *frame, cc *ssa.CallCommon, a []Value) Value {
-			t := a[1].(VInt).T
-			rs(a[0]).endExcl = &t
-			return a[0]
-		}
-		m[pr+"EndInclusive"] = func(ex *Exec, fr *frame, cc *ssa.CallCommon, a []Value) Value {
-			t := a[1].(VInt).T
-			rs(a[0]).endIncl = &t
-			return a[0]
-		}
-		m[pr+"StartExclusive"] = func(ex *Exec, fr *frame, cc *ssa.CallCommon, a []Value) Value {
-			t := a[1].(VInt).T
-			rs(a[0]).startExcl = &t
-			return a[0]
-		}
-		m[pr+"Descending"] = func(ex *Exec, fr *frame, cc *ssa.CallCommon, a []Value) Value {
-			rs(a[0]).descending = true
-			return a[0]
-		}
-		m["(cosmossdk.io/collections.Pair[K1, K2]).K1"] = func(ex *Exec, fr *frame, cc *ssa.CallCommon, a []Value) Value {
-			return a[0].(VOpaque).Data.([2]Value)[0]
-		}
-		m["(cosmossdk.io/collections.Pair[K1, K2]).K2"] = func(ex *Exec, fr *frame, cc *ssa.CallCommon, a []Value) Value {
-			return a[0].(VOpaque).Data.([2]Value)[1]
-		}
-		m["(*cosmossdk.io/collections.IndexedMap[PrimaryKey, Value, Idx]).Walk"] = func(ex *Exec, fr *frame, cc *ssa.CallCommon, a []Value) Value {
-			cm := a[0].(VPtr).load().(VStruct).F[1].(VOpaque).Data.(*collMap)
-			spec := a[2].(VIface).V.(VPtr).load().(VOpaque).Data.(*rangeSpec)
-			fn := a[3].(VClos)
-			// snapshot of the matching entries
-			var sel []collEntry
-			for _, e := range cm.entries {
-				kp := e.key.(VOpaque).Data.([2]Value)
-				k2 := kp[1].(VInt).T
-				c := ex.collKeyEq(kp[0], spec.prefix)
-				if spec.startExcl != nil {
-					c = And(c, Gt(k2, *spec.startExcl))
-				}
-				if spec.endExcl != nil {
-					c = And(c, Lt(k2, *spec.endExcl))
-				}
-				if spec.endIncl != nil {
-					c = And(c, Le(k2, *spec.endIncl))
-				}
-				if ex.decide(c) {
-					sel = append(sel, e)
-				}
-			}
-			// order by K2 (keys are distinct): insertion sort deciding comparisons
-			k2 := func(e collEntry) Term { return e.key.(VOpaque).Data.([2]Value)[1].(VInt).T }
-			for i := 1; i < len(sel); i++ {
-				for j := i; j > 0; j-- {
-					before := Lt(k2(sel[j]), k2(sel[j-1]))
-					if spec.descending {
-						before = Gt(k2(sel[j]), k2(sel[j-1]))
-					}
-					if !ex.decide(before) {
-						break
-					}
-					sel[j], sel[j-1] = sel[j-1], sel[j]
-				}
-			}
-			for _, e := range sel {
-				r := ex.callFn(fr, cc, fn.Fn, []Value{e.key, e.val}, fn.Bind).(VTuple)
-				if errOf(r[1]) != nil {
-					return r[1]
-				}
-				if ex.decide(r[0].(VBool).T) {
-					break
-				}
-			}
-			return nilErr()
-		}
-	})
-}
-
-func init() {
-	extraIntrinsics = append(extraIntrinsics, func(m map[string]intrinsic) {
-		m["nd:ndAddr"] = m["nd:ndAtom"]
-		m["github.com/cosmos/cosmos-sdk/types.AccAddressFromBech32"] = func(ex *Exec, fr *frame, cc *ssa.CallCommon, a []Value) Value {
-			return VTuple{a[0], nilErr()} // identity on atoms: String/FromBech32 are mutually inverse injections
-		}
-		m["(cosmossdk.io/math.LegacyDec).Equal"] = func(ex *Exec, fr *frame, cc *ssa.CallCommon, a []Value) Value {
-			return VBool{Eq(a[0].(VInt).T, a[1].(VInt).T)}
-		}
-	})
-}
-
-// ---------------------------------------------------------------- ABI (static types) and byte helpers
-
-func (ex *Exec) beBytes(v Term, n int) []Value { // n-byte big-endian of a non-negative int < 256^n
-	out := make([]Value, n)
-	cur := v
-	for i := n - 1; i >= 0; i-- {
-		q, r := ex.divModPos(cur, big.NewInt(256))
-		out[i] = VInt{r}
-		cur = q
-	}
-	return out
-}
-
-func init() {
-	extraIntrinsics = append(extraIntrinsics, func(m map[string]intrinsic) {
-		m["nd:ndByteSlice"] = func(ex *Exec, fr *frame, cc *ssa.CallCommon, a []Value) Value {
-			n := int(a[1].(VInt).T.I.Int64())
-			e := make([]Value, n)
-			for i := range e {
-				e[i] = VInt{ex.ndInt(fmt.Sprintf("%s_%d", symName(a[0]), i), big.NewInt(0), big.NewInt(255))}
-			}
-			return VSlice{O: ex.newObj(VArr{e}), Len: n, Cap: n}
-		}
-		sliceElems := func(s VSlice) []Value {
-			if s.O == nil {
-				return nil
-			}
-			return s.O.V.(VArr).E[s.Off : s.Off+s.Len]
-		}
-		m["github.com/ethereum/go-ethereum/common.BytesToAddress"] = func(ex *Exec, fr *frame, cc *ssa.CallCommon, a []Value) Value {
-			b := sliceElems(a[0].(VSlice))
-			if len(b) > 20 {
-				b = b[len(b)-20:]
-			}
-			e := make([]Value, 20)
-			for i := range e {
-				e[i] = VInt{IntC(0)}
-			}
-			copy(e[20-len(b):], b)
-			return VArr{e}
-		}
-		m["math/big.NewInt"] = func(ex *Exec, fr *frame, cc *ssa.CallCommon, a []Value) Value {
-			return VOpaque{Kind: "bigptr", Data: a[0].(VInt).T}
-		}
-		m["(*math/big.Int).SetUint64"] = func(ex *Exec, fr *frame, cc *ssa.CallCommon, a []Value) Value {
-			return VOpaque{Kind: "bigptr", Data: a[1].(VInt).T}
-		}
-		m["(encoding/binary.bigEndian).PutUint64"] = func(ex *Exec, fr *frame, cc *ssa.CallCommon, a []Value) Value {
-			s := a[1].(VSlice)
-			if s.Len < 8 {
-				panic(goPanic{"PutUint64: short buffer"})
-			}
-			bs := ex.beBytes(a[2].(VInt).T, 8)
-			arr := s.O.V.(VArr)
-			e := make([]Value, len(arr.E))
-			copy(e, arr.E)
-			copy(e[s.Off:], bs)
-			s.O.V = VArr{e}
-			return nil
-		}
-		m["github.com/ethereum/go-ethereum/accounts/abi.NewType"] = func(ex *Exec, fr *frame, cc *ssa.CallCommon, a []Value) Value {
-			return VTuple{VOpaque{Kind: "abitype", Data: *a[0].(VStr).Conc}, nilErr()}
-		}
-		m["(github.com/ethereum/go-ethereum/accounts/abi.Arguments).Pack"] = func(ex *Exec, fr *frame, cc *ssa.CallCommon, a []Value) Value {
-			argsT := sliceElems(a[0].(VSlice))
-			vals := sliceElems(a[1].(VSlice))
-			if len(argsT) != len(vals) {
-				return VTuple{VSlice{}, ex.mkErr("abi: argument count mismatch", nil)}
-			}
-			var out []Value
-			for i, at := range argsT {
-				ty := at.(VStruct).F[1].(VOpaque).Data.(string) // Argument{Name, Type, Indexed}
-				v := vals[i].(VIface).V
-				switch ty {
-				case "address":
-					arr := v.(VArr)
-					for j := 0; j < 12; j++ {
-						out = append(out, VInt{IntC(0)})
-					}
-					out = append(out, arr.E...)
-				case "uint256":
-					t := v.(VOpaque).Data.(Term)
-					out = append(out, ex.beBytes(t, 32)...)
-				default:
-					panic(unsupported{"abi type " + ty})
-				}
-			}
-			return VTuple{VSlice{O: ex.newObj(VArr{out}), Len: len(out), Cap: len(out)}, nilErr()}
-		}
-		m["github.com/ethereum/go-ethereum/crypto.Keccak256"] = func(ex *Exec, fr *frame, cc *ssa.CallCommon, a []Value) Value {
-			var pre []Value
-			for _, part := range sliceElems(a[0].(VSlice)) {
-				pre = append(pre, sliceElems(part.(VSlice))...)
-			}
-			return VStr{Atom: nil, Conc: nil, Bytes: nil}.withHash(ex, pre)
-		}
-	})
-}
-
-// a hash value is an opaque 32-byte slice remembering its pre-image (injectivity assumption)
-func (s VStr) withHash(ex *Exec, pre []Value) Value {
-	return VOpaque{Kind: "keccak", Data: pre}
+	panic(unsupported{"global " + pkgPath + "." + name + " not found"})
 }
